@@ -105,9 +105,10 @@ theorem compressed_core (x : Nat) (hx : x < p) (odd : Bool) (hex : ¬ (odd = tru
       · simp [hv]
 
 /-- Key encodings on which the model and the SEC1 reference could differ ONLY IF secp256k1 had a point
-    with y = 0: `03 ‖ x` with x³ + 7 ≡ 0 (mod p). No such x exists (the group order n is odd, so there
-    is no point of order two), but that number-theoretic fact is not proved here; the theorems simply
-    exclude these (non-existent) inputs. -/
+    with y = 0: `03 ‖ x` with x³ + 7 ≡ 0 (mod p). No such x exists: −7 is not a cube modulo p, PROVED in
+    Proofs/C03Field.lean (`curveRhs_ne_zero`, `not_exceptional`: the class is empty), so the theorems of
+    this file that carry `¬ Exceptional pk` are applied unconditionally in Props/C03.lean
+    (`ecdsa_accept_iff`, `parsePubkey_is_sec1`). -/
 def Exceptional (pk : Bytes) : Prop :=
   ∃ t, pk = 0x03 :: t ∧ t.length = 32 ∧ curveRhs (beVal t) = 0
 
